@@ -939,6 +939,15 @@ def vStrOpt : GoVal := .struct [.int 5]
 def tIface : GoType := .struct [(fm t!"V" t!"v", .iface)]
 def vIface : GoVal := .struct [.iface (.str t!"s")]
 
+/-- two DIFFERENT anonymous struct types under equally named fields of different parents (and the first one again):
+    `struct{ Primary struct{ Limits struct{Max int} }; Backup struct{ Limits struct{Codes []string}; Again struct{Max int} } }` -/
+def tLimA : GoType := .struct [(fm t!"Max" t!"max", .int 0)]
+def tLimB : GoType := .struct [(fm t!"Codes" t!"codes", .slice .str)]
+def tTwins : GoType := .struct [
+  (fm t!"Primary" t!"primary", .struct [(fm t!"Limits" t!"limits", tLimA)]),
+  (fm t!"Backup" t!"backup", .struct [(fm t!"Limits" t!"limits", tLimB), (fm t!"Again" t!"again", tLimA)])]
+def vTwins : GoVal := .struct [.struct [.struct [.int 3]], .struct [.struct [.list [.str t!"c"]], .struct [.int 4]]]
+
 /-- one struct type under two properties, the first named `a/b` -/
 def tInner : GoType := .struct [(fm t!"X" t!"x", .int 0)]
 def tEsc : GoType := .struct [(fm t!"A" t!"a/b", tInner), (fm t!"B" t!"c", tInner)]
